@@ -202,7 +202,7 @@ def py_of(t):
         return Sym('error')       # improper list: list + non-list
 
 
-def real_unify(pairs, watch, sched=('all',), swap_last=False, atoms='same'):
+def real_unify(pairs, watch, sched=('all',), swap_last=False, atoms='same', deferred=None):
     """atoms: 'same' = all terms from one engine; 'other' = right-hand sides built by another
     engine; 'cleared' = right-hand sides built by the same engine before clear()"""
     yp = E.YP()
@@ -224,11 +224,20 @@ def real_unify(pairs, watch, sched=('all',), swap_last=False, atoms='same'):
     outs = []
     saved = []
 
+    # deferred: every unification object is created before the first one is started ('created-first'),
+    # or obtained from the interface method of the left-hand term ('method': IUnifiable.unify, also on a
+    # variable that is bound by the time it is started); a generator's body runs when it is started
+    pre = None
+    if deferred == 'created-first':
+        pre = [E.unify(a, b) for a, b in ps]
+    elif deferred == 'method':
+        pre = [(a.unify(b) if isinstance(a, E.IUnifiable) else E.unify(a, b)) for a, b in ps]
+
     def nest(i):
         if i == len(ps):
             yield False
             return
-        for _ in E.unify(ps[i][0], ps[i][1]):
+        for _ in (pre[i] if pre is not None else E.unify(ps[i][0], ps[i][1])):
             yield from nest(i + 1)
     ending = Sym('done')
     g = nest(0)
@@ -253,6 +262,8 @@ def real_unify(pairs, watch, sched=('all',), swap_last=False, atoms='same'):
         ending = R.exn_name(e)
         e.__traceback__ = None
     del g
+    if pre is not None:
+        del pre[:]          # the harness's own references to the unification objects
     gc.collect()
     res = [Sym('u'), outs, ending, R.bound_count()]
     late = []
